@@ -435,6 +435,36 @@ func TestVerif_LPMKeys(t *testing.T) {
 		r.Case(uint64(n), true)
 		r.Count("keys", 1)
 	}
+	// IPv6 and IPv4-mapped IPv6 prefixes: the key is the 16-byte address masked to the prefix length, no offset
+	for i := 0; i < 5000; i++ {
+		var b [16]byte
+		binary.BigEndian.PutUint64(b[:8], rng.Uint64()>>uint(rng.IntN(64)))
+		binary.BigEndian.PutUint64(b[8:], rng.Uint64())
+		if rng.IntN(3) == 0 {
+			b = [16]byte{0, 0, 0, 0, 0, 0, 0, 0, 0, 0, 0xff, 0xff, byte(rng.IntN(256)), byte(rng.IntN(256)), 0, byte(rng.IntN(2))} // ::ffff:a.b.c.d
+		}
+		bits := rng.IntN(129)
+		p := netip.PrefixFrom(netip.AddrFrom16(b), bits)
+		var k []byte
+		func() {
+			defer func() {
+				if x := recover(); x != nil {
+					r.Violation("lpmkey/netip6-panic", i, map[string]any{"message": fmt.Sprintf("NetIPPrefixToIndexKey(%v) panics: %v", p, x)})
+				}
+			}()
+			k = lpm.NetIPPrefixToIndexKey(p)
+		}()
+		if k != nil {
+			d, l := lpm.DecodeLPMKey(k)
+			m := p.Masked().Addr().As16()
+			if int(l) != bits || !bytes.Equal(d, m[:(bits+7)/8]) {
+				r.Violation("lpmkey/netip6-roundtrip", i, map[string]any{"message": fmt.Sprintf("NetIPPrefixToIndexKey(%v) decodes to (%x,%d), want (%x,%d)", p, d, l, m[:(bits+7)/8], bits)})
+			}
+		}
+		n++
+		r.Case(uint64(n), true)
+		r.Count("keys", 1)
+	}
 	r.Sample(map[string]any{"32bit": fmt.Sprintf("prefix lengths 0..32 x %d data words", words), "128bit_samples": vkit.N(20000, 200000), "example": fmt.Sprintf("%x", lpm.EncodeLPMKey([]byte{0xff, 0xff}, 9))})
 	r.Finish()
 }
